@@ -134,9 +134,16 @@ def run(ctx):
             ctx.check(ok, 'C18-floor', '%s: division corrected to floor exactly for a negative non-multiple' % label, f,
                       'join_seconds for a period of %d s does not floor (%s): instants before the epoch are attributed to the '
                       'following period' % (num, why), construct='floor:join:%s' % t[:60], detail='count / %d, -1 iff count < 0 and count %% %d != 0' % (num, num))
-        # narrowing casts of the count
-        for x in walk(f):
-            if x.get('kind') == 'CXXStaticCastExpr' and int_type(dtype(x) or qtype(x)):
+        # narrowing casts of the count (in join_seconds itself, or in a detail:: helper template it hands the count to)
+        cast_sites = [(f, F, x) for x in walk(f) if x.get('kind') == 'CXXStaticCastExpr']
+        for hk in sorted(GW.reachable([k])):
+            if hk != k and hk in GW.defs and hk[0].startswith('cctz::detail::') and hk[0] not in ('cctz::detail::join_seconds',):
+                hu_, hf_ = GW.defs[hk]
+                HF_ = wctx.facts(hf_)
+                cast_sites += [(hf_, HF_, x) for x in walk(hf_) if x.get('kind') == 'CXXStaticCastExpr']
+        for (f_, F_, x) in cast_sites:
+            if int_type(dtype(x) or qtype(x)):
+                F = F_
                 it = int_type(dtype(x) or qtype(x))
                 src = int_type(dtype(peel(kids(x)[-1])) or '')
                 if src and src[0] <= it[0] and src[1] == it[1]:
@@ -155,6 +162,7 @@ def run(ctx):
                           'a count that does not fit wraps instead of the conversion reporting failure' % (dtype(x) or qtype(x), up, dn_),
                           construct='narrow:join:%s' % t[:60], detail='[%d, %d]' % (lo, hi))
                 # the failing edges answer false
+        F = wctx.facts(f)
         for rn in g.returns:
             fs = F.facts_at(rn)
             outside = [fa for fa in fs if (fa[0] == '<' and (fa[1].startswith('n:') or fa[2].startswith('n:')) and 'count' in fa[1] + fa[2])]
